@@ -488,7 +488,7 @@ func genTmplCase(r *Rng, out *outFiles) {
 	}
 	noteInput(renderCase(cfg, ts.Files, name, runs))
 	line, rs := implRender(cfg, ts.Files, name, runs)
-	var c16, c05, c12, c02, c08, c15 string
+	var c16, c05, c12, c02, c08, c15, c07 string
 	if strings.Contains(line, "PANIC") {
 		c08 = line
 	}
@@ -520,6 +520,18 @@ func genTmplCase(r *Rng, out *outFiles) {
 		}
 		if c12 == "" {
 			c12 = writerSweep(m, name, runs[0].data, out.count)
+		}
+		// C07: every definition written anywhere in the loaded files (top level, inside elements, inside other
+		// definitions) and every file is resolvable by name, whatever the load order
+		for fn := range ts.FragTree {
+			if _, err := m.GetTemplate(fn); err != nil && c07 == "" {
+				c07 = fmt.Sprintf("fragment %q is defined in the loaded files but GetTemplate fails: %s", fn, renderClass(err))
+			}
+		}
+		for _, fl := range ts.Files {
+			if _, err := m.GetTemplate(fl[0]); err != nil && c07 == "" {
+				c07 = fmt.Sprintf("file %q was loaded but GetTemplate fails: %s", fl[0], renderClass(err))
+			}
 		}
 		// C15: executing templates never writes to the shared parsed trees (incl. the Tag caches)
 		if after := snapshotAll(m); after != snapBefore {
@@ -582,5 +594,5 @@ func genTmplCase(r *Rng, out *outFiles) {
 		c02 = escapeProbe(r, cfg)
 	}
 	out.count("soup")
-	out.put(renderCase(cfg, ts.Files, name, runs), line, verdict("C16", c16), verdict("C05", c05), verdict("C12", c12), verdict("C02", c02), verdict("C08", c08), verdict("C15", c15))
+	out.put(renderCase(cfg, ts.Files, name, runs), line, verdict("C16", c16), verdict("C05", c05), verdict("C12", c12), verdict("C02", c02), verdict("C08", c08), verdict("C15", c15), verdict("C07", c07))
 }
